@@ -67,24 +67,34 @@ SPEC = {
                 'guarantee); encoding/json round trip of merkleroot.Outcome between rounds'],
     'assumptions': ['agreed on-ramp / off-ramp maps (the consensus result) are inputs; that they need 2f+1 observers is C01',
                     'MaxMerkleTreeSize >= 1 (plugin constructor replaces 0 by 256)'],
-    'level_text': 'Proof: 22 Coq theorems. Limit = [s, min(e, s+n-1)] for all uint64 ranges and n >= 1 with no wrap-around; selected '
-                  'intervals characterised exactly (iff) for all agreed maps, sorted, no chain twice, size <= n, omitted when nothing '
-                  'pending, independent of Go map order; a root is reported iff the reader answer holds every sequence number of the '
-                  'interval exactly once, the hasher and address lookup succeed, and the root is the tree over the hashes in sequence '
-                  'order (independent of the order of the answer). Refutations of the unrepaired Limit (F02) and unrepaired observation '
-                  '(F01); F01b (header source chain unchecked) recorded with _refuted/_except_known. History level (induction over the round list of '
-                  'the C03 state-machine model): for every history from every first outcome a selecting round writes exactly report_ranges of its own '
-                  'agreed maps (C02_hist_selection_exact), the same for any two histories (C02_hist_selection_indep: no field of the previous outcome, '
-                  'no earlier round enters), a chain lacking either agreed number in that round gets no interval whatever was carried '
-                  '(C02_hist_selection_characterised); the intervals a building round reads were selected by a round of the same history from its agreed '
-                  'maps (C02_hist_ranges_provenance) and roots are observed only for them, from that round\'s reader answer, address binding and '
-                  'support (C02_hist_observation_roots, C02_hist_roots_for_selected). Correspondence: Limit, reportRangesOutcome / Processor.Outcome and '
-                  'ObserveMerkleRoots run against the model every run; one long-lived Processor per history is judged round by round (Outcome against '
-                  'C01 consensus model o C03 state machine on the current round only; Observation against the observer model on the current environment only)',
-    'level_note': 'Trusted: Coq kernel, hand-written model, differential harness. Reader, hasher, address and chain-support answers are '
-                  'oracles; keccak is abstract (no collision-freeness is claimed or needed). No axioms.',
-    'modelled': 'SeqNumRange.Limit, reportRangesOutcome (ranges and carried off-ramp cursor; the RMN remote config field is part of C03/C05), '
-                'ObserveMerkleRoots, msgsCoverRange, computeMerkleRoot, merklemulti.NewTree/Root; goroutine completion order is '
-                'abstracted (roots compared as a multiset); Processor.getObservation, ObserveOffRampNextSeqNums, ObserveLatestOnRampSeqNums, '
-                'ObserveFChain (Model/C02Hist.v); Processor.getOutcome through Model/CommitSM.v composed with Model/CommitConsensus.v',
+    'level_text': 'Proof: 38 closed Coq theorems. 22 property theorems: Limit = [s, min(e, s+n-1)] for all uint64 ranges and n >= 1, no wrap-around (C02_limit); the '
+                  'selected intervals characterised exactly (iff) for all agreed maps: start at the off-ramp cursor, sorted, no chain twice, size <= n, omitted when '
+                  'nothing is pending, independent of both Go map orders (C02_ranges, _omitted, _order); a root is reported iff the reader answer holds every sequence '
+                  'number of the interval exactly once, hasher and address lookup succeed, and the root is the tree over the hashes in sequence order (C02_root_exact, '
+                  'C02_roots_sound, C02_root_order). Unrepaired code refuted: Limit (F02), roots over a partial read (F01), selection; F01b (header source chain '
+                  'unchecked) is a known finding: C02_root_wrong_chain_refuted + _except_known. History level, by induction over the round list of the C03 machine: a '
+                  'selecting round writes exactly report_ranges of ITS OWN agreed maps whatever any earlier outcome carried (C02_hist_selection_exact / _indep / '
+                  "_characterised); a building round reads only intervals selected in the same history and observes roots only for them, from that round's reader answer "
+                  '(C02_hist_ranges_provenance, _observation_roots, _roots_for_selected). Judge soundness (16 C02_judge_*): for each of the 5 sinks the executable '
+                  "property accepts the model's output and implies the Prop-level clause. Correspondence, every run: real Limit (boundary grid), reportRangesOutcome / "
+                  'Processor.Outcome, ObserveMerkleRoots under adversarial reader answers (tree evaluated through real keccak pairs), and ONE long-lived Processor from '
+                  'NewProcessor per history of 8..16 rounds with arbitrary previous outcomes and a changing environment, judged round by round. Translation tie (11 '
+                  'theorems, C02_gen.v): Limit, Contains, Overlaps, msgsCoverRange and computeMerkleRoot up to the NewTree call are re-translated from source. Partial: '
+                  'the judges check the only-if directions (that a complete read MUST yield a root is left to the model comparison); for an inverted range or n = 0 only '
+                  'the start clause.',
+    'level_note': 'Trusted: Coq kernel, hand-written model and theorem statements, differential harness, leaf translator. Specific: MsgsBetweenSeqNums, '
+                  'GetContractAddress, ChainSupport, curse / NextSeqNum / expected-next readers and the message hasher are scripted oracles (theorems hold for every '
+                  'answer); keccak HashInternal is an abstract hash (no collision-freeness claimed or needed), merklemulti.NewTree is modelled from its source (the part '
+                  "of computeMerkleRoot after the translator's cut), sort.Slice as a stable sort, encoding/json round trip of merkleroot.Outcome exercised not modelled; "
+                  'the agreed maps of a round are computed by the C01 model from the attributed observations (libocr: one observation per oracle; MaxMerkleTreeSize >= '
+                  '1). Known finding F01b stays reported as KNOWN-FINDING. No axioms.',
+    'technique': 'Coq theorems (exact iff characterisations, induction over round histories) over a hand-written Gallina model; differential correspondence with proved '
+                 'judge incl. one long-lived Processor per history; Limit / msgsCoverRange / computeMerkleRoot prefix re-translated from Go (C02_gen.v)',
+    'modelled': 'Hand model (Model/SeqRange.v, CommitMerkle.v, C02Hist.v): SeqNumRange.Limit, reportRangesOutcome (ranges and carried off-ramp cursor; the RMN remote '
+                'config field is part of C03/C05), ObserveMerkleRoots, msgsCoverRange, computeMerkleRoot, merklemulti.NewTree/Root; goroutine completion order is '
+                'abstracted (roots compared as a multiset); Processor.getObservation, ObserveOffRampNextSeqNums, ObserveLatestOnRampSeqNums, ObserveFChain; '
+                'Processor.getOutcome through Model/CommitSM.v composed with Model/CommitConsensus.v. Translated from source per run: SeqNumRange.Limit (+ '
+                'NewSeqNumRange, Start, End, SetEnd), Contains, Overlaps, msgsCoverRange, computeMerkleRoot before merklemulti.NewTree (msgHasher.Hash = oracle). '
+                'Inputs of the model: reader / hasher / address / support / curse answers, the keccak pair table logged by the harness, the attributed observations of '
+                'each round',
 }
